@@ -4,6 +4,7 @@ import (
 	"fmt"
 	"sort"
 	"strings"
+	"sync"
 	"sync/atomic"
 
 	"github.com/wollac/iota-crypto-demo/pkg/bech32"
@@ -25,7 +26,7 @@ func c16Polymod(v []byte) uint32 { return uint32(bech32.VerifPolymod(v)) }
 
 func runC16(c *core.Ctx) {
 	th := c.Thorough()
-	c.Rule = "syndrome model: states = syndromes of all single (89x31) and pair (C(89,2)x31^2) errors inside the 89-symbol window, taken from the real polymod; decision = no zero single, all singles distinct, no pair equal to a single, all pairs distinct (=> every error of weight <=4 has non-zero syndrome); model bound to the code by replaying every weight-2 (thorough: weight-3) pattern on the real polymod and every weight-1/2 (short words: 3, thorough 4) substitution through the real Decode"
+	c.Rule = "syndrome model: states = syndromes of all single (89x31) and pair (C(89,2)x31^2) errors inside the 89-symbol window, taken from the real polymod; decision = no zero single, all singles distinct, no pair equal to a single, all pairs distinct (=> every error of weight <=4 has non-zero syndrome); acceptance constants: all 32^5 (thorough 32^6 = every 30-bit polymod value) checksum tails through the real Decode, any extra accepted constant is turned into weight<=4 patterns via the tables; model bound to the code by replaying every weight-2 (thorough: weight-3) pattern on the real polymod and every weight-1/2 (short words: 3, thorough 4) substitution through the real Decode"
 	var transitions, validated int64
 
 	// ---- the model: syndromes from the real polymod ----
@@ -148,6 +149,152 @@ func runC16(c *core.Ctx) {
 		}
 		if confirmed == 0 {
 			c.Set("model_collisions_not_realisable", true) // masked by padding/length rules or not constructible: not a violation of the property
+		}
+	}
+
+	// ---- acceptance set: which final polymod values does the real Decode accept? ----
+	// For a fixed prefix, the 6 checksum symbols reach every 30-bit polymod value exactly once, so enumerating all 32^6
+	// tails of "a1......" through the real Decode yields the exact set of accepted constants (BIP-173: only 1). A second
+	// accepted constant c means every error pattern with syndrome 1^c is accepted; the syndrome tables then give the
+	// patterns of weight <= 4, which are realised as strings and confirmed on Decode.
+	tailSyms := 5 // quick: the first checksum symbol is kept, 2^25 tails
+	if th {
+		tailSyms = 6
+	}
+	{
+		validTail := rb.CreateChecksum("a", nil)
+		var accepted [][]byte
+		var accMu sync.Mutex
+		var tails atomic.Int64
+		shards := 32 * 32
+		core.Par(shards, func(sh int) {
+			buf := []byte("a1qqqqqq")
+			sym := make([]byte, 6)
+			sym[5], sym[4] = byte(sh%32), byte(sh/32)
+			n := 1
+			for i := 0; i < tailSyms-2; i++ {
+				n *= 32
+			}
+			for v := 0; v < n; v++ {
+				x := v
+				for i := 3; i >= 0; i-- {
+					if i >= 6-tailSyms {
+						sym[i] = byte(x % 32)
+						x /= 32
+					} else {
+						sym[i] = validTail[i]
+					}
+				}
+				for i := 0; i < 6; i++ {
+					buf[2+i] = rb.Charset[sym[i]]
+				}
+				if _, _, err := bech32.Decode(string(buf)); err == nil {
+					accMu.Lock()
+					accepted = append(accepted, append([]byte{}, sym...))
+					accMu.Unlock()
+				}
+			}
+			tails.Add(int64(n))
+		})
+		if tailSyms < 6 {
+			// quick tier: besides the 2^25 slice, probe a dictionary of plausible final constants (Bech32m's, 0, all ones,
+			// every single bit, every single bit next to 1); the complete 2^30 enumeration is the thorough tier
+			base := c16Polymod(append(append([]byte{}, bech32.VerifHrpExpand("a")...), 0, 0, 0, 0, 0, 0))
+			consts := []uint32{0x2bc830a3, 0, 0x3fffffff, 2, 3}
+			for k := uint(0); k < 30; k++ {
+				consts = append(consts, 1<<k, 1^(1<<k))
+			}
+			for _, cst := range consts {
+				if cst == 1 {
+					continue
+				}
+				v := base ^ cst // the tail symbols that make the polymod equal cst
+				sym := make([]byte, 6)
+				for i := 0; i < 6; i++ {
+					sym[i] = byte(v >> uint(5*(5-i)) & 31)
+				}
+				str := "a1"
+				for _, d := range sym {
+					str += string(rb.Charset[d])
+				}
+				tails.Add(1)
+				if c16Polymod(append(append([]byte{}, bech32.VerifHrpExpand("a")...), sym...)) != cst {
+					c.Abort("cannot steer the polymod to %#x: the linear model does not describe this polymod", cst)
+					return
+				}
+				if _, _, err := bech32.Decode(str); err == nil {
+					accepted = append(accepted, sym)
+				}
+			}
+		}
+		validated += tails.Load()
+		c.Set("checksum_tails_enumerated_through_Decode", tails.Load())
+		c.Set("accepted_tails", int64(len(accepted)))
+		prefix := append(append([]byte{}, bech32.VerifHrpExpand("a")...))
+		for _, tl := range accepted {
+			diff := 0
+			for i := range tl {
+				if tl[i] != validTail[i] {
+					diff++
+				}
+			}
+			if diff == 0 {
+				continue
+			}
+			str := "a1"
+			for _, d := range tl {
+				str += string(rb.Charset[d])
+			}
+			if diff <= 4 {
+				c.Violate(fmt.Sprintf("C16/decode/tail/weight-%d", diff), fmt.Sprintf("valid \"a12uel5l\" -> %q (%d substitutions) is accepted by Decode", str, diff), str, "", nil)
+				continue
+			}
+			delta := c16Polymod(append(append([]byte{}, prefix...), tl...)) ^ 1
+			c.Set("extra_accepted_polymod_constant", fmt.Sprintf("%#x (string %q)", delta^1, str))
+			// patterns of weight <= 4 with syndrome delta
+			find := func(x uint32) (pr, bool) {
+				i := sort.Search(len(pairs), func(i int) bool { return pairs[i].syn >= x })
+				if i < len(pairs) && pairs[i].syn == x {
+					return pairs[i], true
+				}
+				return pr{}, false
+			}
+			var pats []pat
+			if o, ok := singles[delta]; ok {
+				pats = append(pats, pat{o})
+			}
+			if x, ok := find(delta); ok {
+				pats = append(pats, pat{{int(x.p), x.a}, {int(x.q), x.b}})
+			}
+			for sp := 0; sp < c16Window && len(pats) < 400; sp++ {
+				for a := 1; a < 32; a++ {
+					if x, ok := find(delta ^ sigma[sp][a]); ok && int(x.p) != sp && int(x.q) != sp {
+						pats = append(pats, pat{{sp, byte(a)}, {int(x.p), x.a}, {int(x.q), x.b}})
+					}
+				}
+			}
+			for i := 0; i < len(pairs) && len(pats) < 2000; i++ {
+				y := pairs[i]
+				if x, ok := find(delta ^ y.syn); ok && x.p != y.p && x.p != y.q && x.q != y.p && x.q != y.q && x.p > y.p {
+					pats = append(pats, pat{{int(y.p), y.a}, {int(y.q), y.b}, {int(x.p), x.a}, {int(x.q), x.b}})
+				}
+			}
+			c.Set("coset_patterns_of_weight_le_4", int64(len(pats)))
+			confirmed := 0
+			for _, pt := range pats {
+				if vs, bad, ok := c16Realise(pt); ok {
+					validated++
+					if _, _, err := bech32.Decode(bad); err == nil {
+						confirmed++
+						c.Violate(fmt.Sprintf("C16/coset/weight-%d", len(pt)), fmt.Sprintf("Decode also accepts checksum constant %#x; valid %q -> %q (%d substitutions) is accepted", delta^1, vs, bad, len(pt)),
+							map[string]interface{}{"valid": vs, "corrupted": bad, "pattern": pt},
+							fmt.Sprintf("func TestC16(t *testing.T) { _, _, err := bech32.Decode(%q); if err == nil { t.Fatal(\"corrupted string accepted\") } }", bad), nil)
+						if confirmed >= 20 {
+							break
+						}
+					}
+				}
+			}
 		}
 	}
 
